@@ -91,6 +91,15 @@ refactorings in `/verif/seeded/refactors/<property>-<Rx>/`.  None was ever commi
 (expects a report for every change except the ones marked NOT A VIOLATION, and silence for every
 refactoring).  The tables below are generated from the `meta.json` files by
 `tools/gen_section11.py`.
+
+*Hand-made probes.*  At the very end the seeded patches were grouped by file: 24 source files had never
+been touched by a sub-agent (mostly single-instruction files).  Seven hand-made changes were applied to
+seven of them (ROTXR.L, SHAR.L and NEG.W for one value each, ADDS #4 on ER7 at a carry, `get_addr_ern`
+keeping bit 24 for ER6, `@(d:16,ER4)` without sign extension under one upper byte, `write_rn_w` on E5
+damaging R5); the suite stayed green for six of them and all six were reported - five at once, the
+`get_addr_ern` one only by C04's check: C01 and C08 swept all 256 upper bytes through one address register
+and all registers under the upper byte 5A, whose bit 24 is clear.  C01 / C04 / C08 now run every address
+register under upper bytes that set and clear every bit (§6).
 """)
     out.append(f"""### 11.1 Round 1 - two changes per property ("needs something specific to manifest")
 
